@@ -13,6 +13,12 @@ REPO = os.environ.get("VERIF_REPO", "/repo")
 ROOT = os.path.dirname(os.path.dirname(os.path.abspath(__file__)))
 
 ACCESSORS = {
+    "observable.rs": """
+impl<'a, Item> Observable<'a, Item> where Item: Clone + Send + Sync {
+  /// `inner_subscribe` with a caller-made Observer (co-simulation of the subject LTSs: the harness keeps the handle)
+  pub fn verif_inner_subscribe(&self, observer: Observer<'a, Item>) -> Subscription<'a> { self.inner_subscribe(observer) }
+}
+""",
     "subjects/subject.rs": """
 impl<'a, Item> Subject<'a, Item> where Item: Clone + Send + Sync {
   pub fn verif_observer_count(&self) -> usize { self.observers.read().unwrap().len() }
